@@ -168,6 +168,7 @@ func userKeys() []keyLike {
 // follower is a full node without pillars, fed only through the real chain bridge.
 type follower struct {
 	dir    string
+	mgr    db.Manager
 	ch     chain.Chain
 	cons   consensus.Consensus
 	sup    *vm.Supervisor
@@ -179,7 +180,8 @@ func newFollower() *follower {
 	if err != nil {
 		panic(err)
 	}
-	ch := chain.NewChain(db.NewLevelDBManager(dir), genesis.NewGenesis(g.EmbeddedGenesis))
+	mgr := db.NewLevelDBManager(dir)
+	ch := chain.NewChain(mgr, genesis.NewGenesis(g.EmbeddedGenesis))
 	cons := consensus.NewConsensus(db.NewMemDB(), ch, true)
 	common.DealWithErr(ch.Init())
 	common.DealWithErr(cons.Init())
@@ -187,7 +189,7 @@ func newFollower() *follower {
 	common.DealWithErr(cons.Start())
 	sup := vm.NewSupervisor(ch, cons)
 	br := protocol.NewChainBridge(ch, cons, verifier.NewVerifier(ch, cons), sup)
-	return &follower{dir: dir, ch: ch, cons: cons, sup: sup, bridge: br}
+	return &follower{dir: dir, mgr: mgr, ch: ch, cons: cons, sup: sup, bridge: br}
 }
 
 func (f *follower) stop() {
